@@ -33,9 +33,11 @@ func init() {
 	core.Register(&c06{base: base{
 		id: "C06",
 		rule: "one case = one round of 16 goroutines x 50 operations released by a barrier; operations: compile one of ~200 expression strings with the expr/path_eval/leafref compiler, " +
-			"run one of 48 process-wide shared pre-compiled machines on a private mock tree/context (3 table variants), run it with the k-th data-tree callback failing; " +
+			"run one of ~58 process-wide shared pre-compiled machines (48 generated, ~10 over node-set functions and re-match with patterns taken from the data) on a private mock tree/context " +
+			"(3 fixed table variants and a nonce table whose values no earlier run has seen), run it with the k-th data-tree callback failing; " +
 			"the lazy plugin load is re-armed before every round and three yield profiles (off, Gosched, Gosched+sleep) rotate; every outcome (value/error, data-tree call log, " +
-			"program listing) is compared with the same operation's outcome obtained sequentially before the round, and the sequential pass itself re-runs every machine (history independence); " +
+			"program listing) is compared with the same operation's outcome obtained sequentially — before the round in even rounds, after it in odd rounds, so that the concurrent runs are then the first " +
+			"ever to perform their operations — and the sequential pass itself re-runs every machine (history independence); " +
 			"the worker is built with -race and the driver reads the race log; distinct_nontrivial = distinct (operation, outcome) pairs observed concurrently",
 		block: 4,
 		assumptions: []string{
@@ -43,7 +45,7 @@ func init() {
 			"absence of race reports only covers executed paths and the detector's bounded history; rounds are short and many for that reason",
 			"the race detector build (-race) of the worker is part of every run; a report whose accessing frames lie only in the harness makes the run inconclusive",
 		},
-		minEvents: []string{"rounds", "concurrent_operations", "concurrent_runs_of_shared_machines", "concurrent_compiles", "rounds_with_same_machine_overlap", "faulted_concurrent_runs"},
+		minEvents: []string{"rounds", "concurrent_operations", "concurrent_runs_of_shared_machines", "concurrent_compiles", "rounds_with_same_machine_overlap", "faulted_concurrent_runs", "rounds_with_oracle_after_the_concurrent_phase", "concurrent_runs_on_never_seen_data"},
 	}})
 }
 
@@ -65,6 +67,7 @@ var (
 	c06Once     sync.Once
 	c06Machines []*c06Machine
 	c06Sources  []string // strings to compile concurrently (valid and invalid)
+	c06Extra    int
 )
 
 var c06Tables = []func(string) xp.Answer{
@@ -80,7 +83,13 @@ var c06Tables = []func(string) xp.Answer{
 
 func c06Setup(seed int64) {
 	r := core.CaseRng(seed, "C06-setup", 0)
-	for len(c06Machines) < 48 {
+	for _, src := range c06ExtraSources {
+		if m, err := expr.NewExprMachine(src, c02PfxMap); err == nil {
+			c06Machines = append(c06Machines, &c06Machine{src: src, m: m})
+			c06Extra++
+		}
+	}
+	for len(c06Machines) < 48+c06Extra {
 		var e *xp.Node
 		if len(c06Machines)%2 == 0 {
 			e = c02GenExpr(r)
@@ -112,11 +121,33 @@ type c06Op struct {
 	kind   int // 0 compile, 1 run, 2 faulted run
 	src    int
 	mach   int
-	table  int
+	table  int // index into c06Tables, or c06NonceTable
 	failAt int
+	nonce  int // c06NonceTable: part of every value, so that this run sees data no earlier run has seen
 }
 
-func (o c06Op) key() string { return fmt.Sprintf("%d/%d/%d/%d/%d", o.kind, o.src, o.mach, o.table, o.failAt) }
+const c06NonceTable = 3
+
+func (o c06Op) key() string {
+	return fmt.Sprintf("%d/%d/%d/%d/%d/%d", o.kind, o.src, o.mach, o.table, o.failAt, o.nonce)
+}
+
+func c06Table(o c06Op) func(string) xp.Answer {
+	if o.table == c06NonceTable {
+		return func(p string) xp.Answer {
+			return xp.Answer{Kind: xp.AnsLeaf, Vals: []string{fmt.Sprintf("n%d-%x", o.nonce, core.Hash(p)&0xff)}}
+		}
+	}
+	return c06Tables[o.table]
+}
+
+// expressions over the registered functions that the scalar generators do not produce
+// (node-set functions, re-match with patterns taken from the data)
+var c06ExtraSources = []string{
+	"re-match(a, b)", "re-match('n1-ab', ../pat)", "re-match(concat(a, 'x'), concat('^', b, '.*$'))",
+	"re-match(/a/b[k = current()/../x]/c, '[a-z0-9-]+')", "re-match('abc', 'a.c') and re-match(a, a)",
+	"count(a)", "sum(a)", "count(/x/y) + sum(../z)", "local-name(a)", "string-length(a) + count(../b)",
+}
 
 func c06Compile(s string) string {
 	var m *xpath.Machine
@@ -146,7 +177,7 @@ func c06Exec(o c06Op, concurrent bool) string {
 		return c06Compile(c06Sources[o.src])
 	default:
 		cm := c06Machines[o.mach]
-		t := &xpmock.Tree{Default: c06Tables[o.table], FailAt: o.failAt}
+		t := &xpmock.Tree{Default: c06Table(o), FailAt: o.failAt}
 		if concurrent {
 			n := atomic.AddInt32(&cm.inflight, 1)
 			for {
@@ -188,23 +219,37 @@ func (p *c06) Run(tier string, seed int64, idx int) core.CaseResult {
 				if r.Chance(1, 5) {
 					mi = r.Intn(len(c06Machines))
 				}
-				o = c06Op{kind: 1, mach: mi, table: r.Intn(len(c06Tables))}
+				o = c06Op{kind: 1, mach: mi, table: r.Intn(len(c06Tables) + 1)}
+				if o.table == c06NonceTable {
+					o.nonce = idx*1000 + g*K + k
+				}
 			}
 			plan[g] = append(plan[g], o)
 			distinct[o.key()] = o
 		}
 	}
-	// sequential pass (quiescent): expected outcomes; twice, to check history independence
-	xpath.VerifSetYield(0)
+	// sequential pass (quiescent): expected outcomes; twice, to check history independence.
+	// In even rounds it runs before the concurrent round, in odd rounds after it: then the
+	// concurrent runs are the first ever to see their operations (nothing process-wide has
+	// been warmed by the oracle), and the oracle runs on machines with a concurrent history.
 	expected := map[string]string{}
-	for k, o := range distinct {
-		a := c06Exec(o, false)
-		b := c06Exec(o, false)
-		res.Ev("sequential_operations", 2)
-		if a != b {
-			res.Fail("C06/sequential-rerun-differs", jsonStr(map[string]interface{}{"op": c06Describe(o)}), "first: "+a+"\nsecond: "+b)
+	sequential := func() {
+		xpath.VerifSetYield(0)
+		for k, o := range distinct {
+			a := c06Exec(o, false)
+			b := c06Exec(o, false)
+			res.Ev("sequential_operations", 2)
+			if a != b {
+				res.Fail("C06/sequential-rerun-differs", jsonStr(map[string]interface{}{"op": c06Describe(o)}), "first: "+a+"\nsecond: "+b)
+			}
+			expected[k] = a
 		}
-		expected[k] = a
+	}
+	if idx%2 == 0 {
+		sequential()
+		res.Ev("rounds_with_oracle_before_the_concurrent_phase", 1)
+	} else {
+		res.Ev("rounds_with_oracle_after_the_concurrent_phase", 1)
 	}
 	// concurrent round
 	xpath.VerifResetPlugins()
@@ -230,6 +275,9 @@ func (p *c06) Run(tier string, seed int64, idx int) core.CaseResult {
 	close(start)
 	wg.Wait()
 	xpath.VerifSetYield(0)
+	if idx%2 == 1 {
+		sequential()
+	}
 	res.Ev("rounds", 1)
 	overlap := int32(0)
 	for _, mi := range hot {
@@ -250,6 +298,9 @@ func (p *c06) Run(tier string, seed int64, idx int) core.CaseResult {
 				res.Ev("concurrent_compiles", 1)
 			case 1:
 				res.Ev("concurrent_runs_of_shared_machines", 1)
+				if o.table == c06NonceTable {
+					res.Ev("concurrent_runs_on_never_seen_data", 1)
+				}
 			case 2:
 				res.Ev("faulted_concurrent_runs", 1)
 			}
@@ -273,7 +324,7 @@ func c06Describe(o c06Op) map[string]interface{} {
 	case 0:
 		return map[string]interface{}{"compile": c06Sources[o.src]}
 	default:
-		return map[string]interface{}{"run": c06Machines[o.mach].src, "table": o.table, "fail_callback": o.failAt}
+		return map[string]interface{}{"run": c06Machines[o.mach].src, "table": o.table, "fail_callback": o.failAt, "nonce": o.nonce}
 	}
 }
 
